@@ -29,7 +29,8 @@ TCall == /\ IsEv("Call")
          /\ Call(Ev.k, Ev.r, Ev.hc, Ev.th, Ev.oi, Ev.p, Ev.os,
                  IF Has(Ev, "vr") THEN Ev.vr ELSE 0, IF Has(Ev, "sh") THEN Ev.sh ELSE 0,
                  IF Has(Ev, "fr") THEN Ev.fr ELSE 0, IF Has(Ev, "tw") THEN Ev.tw ELSE Ev.r,
-                 IF Has(Ev, "ew") THEN Ev.ew ELSE 0, IF Has(Ev, "eb") THEN Ev.eb ELSE 0)
+                 IF Has(Ev, "ew") THEN Ev.ew ELSE 0, IF Has(Ev, "eb") THEN Ev.eb ELSE 0,
+                 IF Has(Ev, "di") THEN Ev.di ELSE 0)
 
 TProbe == /\ IsEv("Probe")
           /\ Probe(Ev.u, Ev.f, Ev.p, Ev.os)
